@@ -118,6 +118,14 @@ CHECKS = {
             'rejected. Held on the references observed.',
             'Trusted: the generator\'s arithmetic on its own coordinates; vf/xlref for the function-position formulas. '
             'Reversed corners and titles containing quote/exclamation mark are not generated.'),
+    'C08': ('runtime monitoring: query history on one long-lived Executor checked offline against fresh-executor reference '
+            'observations; icontract state-preservation contracts on get_cell/get_cells/get_sheet',
+            'Random schedules (60 / 200 calls) of get_cell in four addressing spellings, get_cells with repeats and the same Cell '
+            'object twice, get_sheet by index and title are executed on one Executor under a fixed override set, interleaved '
+            'with a second Executor on the same generated class under other overrides; every observation must equal what a '
+            'fresh Executor reports for that coordinate, grids must have the shape (used range U overrides) in row-major order, '
+            'and icontract snapshots around every query must find the override set and sizes unchanged. Held on the schedules observed.',
+            'Trusted: a fresh Executor asked once as reference. Values compared by type and repr. TODAY excluded.'),
     'C18': ('runtime monitoring: hooked state assertion on Excel.parse (grid, titles, sizes) + boundary observation of every '
             'planted constant vs the generator\'s cell map cross-read by openpyxl\'s regular loader',
             'Generated sparse workbooks (1-12 worksheets in random order, chart sheets between them, empty sheets, blocks away '
